@@ -242,6 +242,11 @@ func GetHashNode(items map[Node]Node, line int) *HashNode {
 	node.ExpressionNode.exprType = ExprHash
 	node.ExpressionNode.line = line
 	node.items = items
+	// No source order is known here: fix one order for the lifetime of the node
+	node.keys = make([]Node, 0, len(items))
+	for k := range items {
+		node.keys = append(node.keys, k)
+	}
 	return node
 }
 
@@ -251,6 +256,7 @@ func ReleaseHashNode(node *HashNode) {
 		return
 	}
 	node.items = nil
+	node.keys = nil
 	HashNodePool.Put(node)
 }
 
